@@ -241,6 +241,52 @@ theorem from_mnemonic_handoff (sha256 : Bytes → Bytes) (prf : Bytes → Bytes 
     fromMnemonic sha256 prf fromSeed wl mnemonic passphrase
       = (mnemonicToSeed sha256 prf wl mnemonic passphrase).bind fromSeed := rfl
 
+/-! ## the helpers: split / join, normalize, membership, hexread, histories on one object -/
+
+/-- `" ".join(ws).split() == ws` for non-empty whitespace-free words, and `split()` only returns such words -/
+theorem split_join (ws : List PyStr) (h : ∀ w ∈ ws, IsWord w) : pySplit (pyJoin ws) = ws :=
+  pySplit_pyJoin ws h
+
+theorem split_fields (s : PyStr) : ∀ w ∈ pySplit s, IsWord w := pySplit_isWord s
+
+/-- `BIP39.normalize(w)` returns the full word of the (unique) index of `w`, for every accepted spelling -/
+theorem normalize_spec (wl : WordList) (hwl : BIP39? = some wl) (w : PyStr) (i : Nat)
+    (h : wl.lookup w = some i) : wl.normalize w = wl.word i := by
+  have tok := table_ok wl hwl
+  rw [normalize_eq wl tok w i h]
+  have hi := (lookup_some wl i w h).1
+  show _ = wl.words[i]?
+  rw [List.getD_eq_getElem?_getD, List.getElem?_eq_getElem hi]; rfl
+
+/-- a string that is no stored key is refused by lookup; `in` tests full words only -/
+theorem lookup_unknown (wl : WordList) (key : PyStr) :
+    wl.lookup key = none ↔ ∀ i, i < wl.words.length → matchesKey (wl.words.getD i []) key = false :=
+  lookup_none_iff wl key
+
+theorem contains_iff (wl : WordList) (key : PyStr) : wl.contains key = true ↔ key ∈ wl.words := by
+  simp [WordList.contains]
+
+/-- `hexread(n)` is `read(n)` in lower-case hex (2n characters) and advances the object exactly as `read` -/
+theorem hexread_spec (prf : Bytes → Bytes → Bytes) (st : PBKDF2) (n : Nat) :
+    st.hexread prf n = (st.read prf n).map (fun p => (hexOf p.1, p.2)) ∧
+    ∀ b, (hexOf b).length = 2 * b.length :=
+  ⟨by unfold PBKDF2.hexread; cases st.read prf n <;> rfl, hexOf_length⟩
+
+/-- histories on ONE object: reads in any chunking return the consecutive pieces of the RFC 2898 stream
+    (`pbkdf2_reads`); expressed for the call history interpreter, and after `close()` every read raises -/
+theorem history_of_reads (prf : Bytes → Bytes → Bytes) (ns : List Nat) (st : PBKDF2) (outs : List Bytes)
+    (h : PBKDF2.reads prf st ns = some outs) :
+    PBKDF2.run prf (some st) (ns.map PbOp.read) = outs.map PbOut.bytes :=
+  run_reads prf ns st outs h
+
+theorem history_after_close (prf : Bytes → Bytes → Bytes) (ops : List PbOp) :
+    PBKDF2.run prf none ops = ops.map fun op => if op = PbOp.close then PbOut.unit else PbOut.raised :=
+  run_closed prf ops
+
+/-- `str.encode("utf-8")` of an ASCII string is its code points -/
+theorem utf8_ascii (s : PyStr) (h : ∀ c ∈ s, c < 128) : utf8Encode s = some (s.map UInt8.ofNat) :=
+  utf8Encode_ascii s h
+
 /-! ## non-vacuity -/
 
 example : ∃ wl, BIP39? = some wl := by
